@@ -6,7 +6,8 @@ persist_state, two players), with the real EventManager, DelayManager, Mode and 
 Per-run configuration swarm (patched into the YAML config before MPF validates it): direction, interval,
 start / completion values, reset_on_complete, disable_on_complete, multiple_hit_window, logic_block_timeout,
 start_enabled / enable_events, add / subtract / jump control events, shared step events, persist_state,
-a counter whose completion event is an accrual step (chained blocks).
+a counter whose completion event is an accrual step (chained blocks), control events in the "event: delay" form
+(several delays, two events with the same delay for the same action; machine-wide and mode-based path).
 
 Workload: count / step events, enable, disable, reset, restart, control events, advance_random, direct API
 calls, mode start/stop, ball end / player change / game end, time passing.  Stimuli are ordinary loop
@@ -19,6 +20,9 @@ advanced when MPF *processes* the stimulus, and what MPF posted while processing
 updated events, recorded at the event bus) and the block's value / enabled / completed afterwards are
 compared with the model.  <name>_timeout events observed on the bus drive the model's reset; they are only
 legal at a deadline the model knows, and required when the timer was started in a documented way.
+Delayed control events: every processed occurrence is remembered with its instant + delay; a read-only tap on
+DelayManager._process_delay_callback shows when a delay carries out a block's control method - that must be
+exactly one pending occurrence's instant (late only by a stall), and every required occurrence must be carried out.
 """
 from sim.harness import draw_knobs
 
@@ -29,7 +33,8 @@ WALL_CAP = {"quick": 120, "thorough": 3000}
 RULE = ("one case = one drawn configuration of nine logic blocks (3 counters, 3 accruals, 3 sequences; machine-wide, "
         "in a non-game mode, in a game mode with/without persist_state) plus one generated history of 8-45 "
         "operations (hits, steps in and out of order, enable/disable/reset/restart, add/subtract/jump, direct "
-        "calls, mode stop/start, ball end, player add, game end) whose instants are biased onto the pending "
+        "calls, delayed control events in bursts closer together than their delay, mode stop/start, ball end, "
+        "player add, game end) whose instants are biased onto the pending "
         "window-end / timeout deadlines of the addressed block (+-1 ms), executed on the real devices under a "
         "seeded scheduler (loop stalls, same-instant tie permutations); a case is non-trivial when it reached at "
         "least one reach probe; distinct = distinct sequence of observed event kinds")
@@ -40,7 +45,10 @@ PROBES = ["hit_accepted", "hit_in_window", "hit_window_tie", "hit_after_window",
           "op_then_timeout_same_instant", "timeout_then_op_same_instant", "enable_while_enabled",
           "reset_while_disabled", "seq_in_order", "seq_out_of_order", "seq_shared_event", "acc_repeat_step",
           "acc_random", "acc_shared_event", "chain_step", "mode_stop_with_timer", "mode_restart",
-          "persist_restore", "player_switch", "direct_call", "step_while_disabled", "timer_may_candidate"]
+          "persist_restore", "player_switch", "direct_call", "step_while_disabled", "timer_may_candidate",
+          "delayed_posted", "delayed_fired", "delayed_overlap", "delayed_two_events_same_delay",
+          "delayed_mode_path", "delayed_fired_late_after_stall", "delayed_relaxed_by_mode_stop",
+          "delayed_dropped_by_mode_stop", "delayed_not_loaded", "op_at_delayed_instant"]
 REAL = ["mpf.devices.logic_blocks.Counter/Accrual/Sequence/LogicBlock", "mpf.core.delays.DelayManager",
         "mpf.core.events.EventManager", "mpf.core.mode.Mode (mode devices, mode event handlers)",
         "mpf.core.device_manager (control events)", "mpf.modes.game (players, ball end)", "mpf.core.player.Player",
@@ -123,18 +131,45 @@ def _gen_steps(ch, name, kind):
     return [["%s_e%d" % (name, i)] for i in pat]
 
 
+DELAYED_OPS = {"counter": [("count", 7), ("disable", 1), ("reset", 1), ("restart", 1), ("enable", 1)],
+               "accrual": [("random", 3), ("disable", 1), ("reset", 1), ("restart", 1), ("enable", 1)],
+               "sequence": [("disable", 1), ("reset", 1), ("restart", 1), ("enable", 1)]}
+DELAYED_KEY = {"count": "count_events", "enable": "enable_events", "disable": "disable_events",
+               "reset": "reset_events", "restart": "restart_events", "random": "advance_random_events"}
+
+
+def _gen_delayed(ch, name, kind, cfg):
+    """Control events in the "event: delay" form: 1-4 extra events, several delays, and with a good share two
+    different events with the same delay for the same action."""
+    if not ch.flag("delayed", 0.45):
+        return []
+    out = []
+    for k in range(1 + ch.choice("ndelayed", 4)):
+        if out and ch.flag("d_same", 0.4):
+            op, ms = out[-1]["op"], out[-1]["ms"]
+        else:
+            op = ch.weighted("d_op", DELAYED_OPS[kind])
+            if op == "enable" and not cfg["enable_events"]:
+                op = "reset"        # an enable event would change the documented start state
+            ms = ch.pick("d_ms", [100, 250, 500, 500, 1000])
+        out.append({"op": op, "event": "%s_d%d" % (name, k), "ms": ms})
+    return out
+
+
 def _gen_block(ch, name, kind, scope):
     if kind == "counter":
-        return _gen_counter(ch, name, scope)
-    cfg = {"kind": kind}
-    _gen_common(ch, cfg, scope)
-    cfg["steps"] = _gen_steps(ch, name, kind)
+        cfg = _gen_counter(ch, name, scope)
+    else:
+        cfg = {"kind": kind}
+        _gen_common(ch, cfg, scope)
+        cfg["steps"] = _gen_steps(ch, name, kind)
+    cfg["delayed"] = _gen_delayed(ch.sub("delayed"), name, kind, cfg)
     return cfg
 
 
 def default_cfg(name, kind, scope):
     cfg = {"kind": kind, "scope": scope, "reset_on_complete": None, "disable_on_complete": None,
-           "enable_events": False, "start_enabled": None, "timeout_ms": 0, "persist": False}
+           "enable_events": False, "start_enabled": None, "timeout_ms": 0, "persist": False, "delayed": []}
     if kind == "counter":
         cfg.update(direction="up", interval=1, start=0, complete=None, window_ms=0, controls=[])
     else:
@@ -147,10 +182,12 @@ def _block_ops(cfg):
         ops = [("count", 10), ("enable", 2), ("disable", 2), ("reset", 2), ("restart", 1.5)]
         if cfg["controls"]:
             ops.append(("ctl", 3))
-        return ops
-    ops = [("step", 10), ("enable", 2), ("disable", 2), ("reset", 1.5), ("restart", 1.5)]
-    if cfg["kind"] == "accrual":
-        ops.append(("random", 1.5))
+    else:
+        ops = [("step", 10), ("enable", 2), ("disable", 2), ("reset", 1.5), ("restart", 1.5)]
+        if cfg["kind"] == "accrual":
+            ops.append(("random", 1.5))
+    if cfg.get("delayed"):
+        ops.append(("delayed", 6))
     return ops
 
 
@@ -216,6 +253,14 @@ def plan(ch, tier):
             op["alt"] = ch.choice("step_alt", 2)
         elif kind == "random":
             op["via"] = "event"
+        elif kind == "delayed":
+            op["via"] = "event"
+            op["i"] = ch.choice("delayed_i", len(cfg["delayed"]))
+            # a second occurrence (another event of the block, often same action and delay) in the same instant
+            if ch.flag("delayed_also", 0.3):
+                op["also"] = ch.choice("delayed_also_i", len(cfg["delayed"]))
+            if ch.flag("delayed_burst", 0.35):
+                op["burst"] = 2 + ch.choice("delayed_burst_n", 2)
         # "wake": make the addressed block reachable first (start its mode / enable it) so that a good share
         # of the operations meets a live, enabled block instead of being trivially ignored
         op["wake"] = bool(ch.flag("wake", 0.55))
@@ -246,6 +291,12 @@ def shrink(plan):
                 p = copy.deepcopy(plan)
                 p["cfg"][name][key] = neutral
                 yield p
+    for name, kind, scope in BLOCKS:
+        if plan["cfg"][name].get("delayed") and not any(o.get("blk") == name and o["op"] == "delayed"
+                                                          for o in plan["ops"]):
+            p = copy.deepcopy(plan)
+            p["cfg"][name]["delayed"] = []
+            yield p
     if plan.get("players", 1) > 1:
         p = copy.deepcopy(plan)
         p["players"] = 1
@@ -254,6 +305,10 @@ def shrink(plan):
         if op.get("burst"):
             p = copy.deepcopy(plan)
             del p["ops"][i]["burst"]
+            yield p
+        if "also" in op:
+            p = copy.deepcopy(plan)
+            del p["ops"][i]["also"]
             yield p
         if op.get("wake"):
             p = copy.deepcopy(plan)
@@ -313,6 +368,12 @@ def _mpf_block_config(name, cfg):
         c["events"] = [", ".join(s) for s in cfg["steps"]]
         if cfg["kind"] == "accrual":
             c["advance_random_events"] = "%s_random" % name
+    # control events with a delay: the "event: delay" dict form next to the undelayed event
+    for d in cfg.get("delayed") or []:
+        key = DELAYED_KEY[d["op"]]
+        if not isinstance(c.get(key), dict):
+            c[key] = {c[key]: 0} if c.get(key) else {}
+        c[key][d["event"]] = "%dms" % d["ms"]
     return c
 
 
@@ -373,6 +434,7 @@ class Harness:
         self.last_timeout_t = {n: None for n in self.names}
         self.recent = []
         self.verify_scheduled = False
+        self.stopping = {}             # mode name -> its stop has begun and is not finished yet
         # event name -> [(block, role)]
         self.roles = {}
         for n in self.names:
@@ -419,6 +481,16 @@ class Harness:
             on_post(event, ev_type, callback, kwargs)
             return orig(em, event, ev_type, callback, **kwargs)
         EventManager._post = _post
+        # read-only tap on the one place where a delay carries out its callback: tells *when* a delayed control
+        # event acts on a block (the callback is the block's event_<action> method), and lets the harness open
+        # its operation window around exactly that call
+        from mpf.core.delays import DelayManager
+        orig_pdc = DelayManager._process_delay_callback
+        wrap = self.wrap_delay_callback
+
+        def _process_delay_callback(dm, name, callback, **kwargs):
+            return orig_pdc(dm, name, wrap(callback), **kwargs)
+        DelayManager._process_delay_callback = _process_delay_callback
 
     def after_boot(self):
         m = self.sim.machine
@@ -446,6 +518,9 @@ class Harness:
             for evname, op, arg in stim:
                 ev.add_handler(evname, self.pre_handler, priority=hi, c18_blk=name, c18_op=op, c18_arg=arg)
                 ev.add_handler(evname, self.post_handler, priority=lo, c18_blk=name, c18_op=op, c18_arg=arg)
+            for i, d in enumerate(cfg.get("delayed") or []):
+                ev.add_handler(d["event"], self.delayed_pre_handler, priority=hi, c18_blk=name, c18_i=i)
+                ev.add_handler(d["event"], self.delayed_post_handler, priority=lo, c18_blk=name, c18_i=i)
         for mode in ("m1", "g1"):
             ev.add_handler("mode_%s_starting" % mode, self.mode_starting_handler, priority=lo, c18_mode=mode)
         ev.add_handler("game_started", self.game_started_handler, priority=hi)
@@ -476,6 +551,8 @@ class Harness:
     def on_post(self, name, ev_type, callback, kwargs):
         roles = self.roles.get(name)
         if not roles:
+            if name in ("mode_m1_will_stop", "mode_g1_will_stop"):
+                self.on_mode_will_stop(name[5:7])
             return
         now = self.loop.time()
         if self.driver_posting:
@@ -529,6 +606,81 @@ class Harness:
         self.recent.append(("timeout", blk, round(now, 6)))
         self.schedule_verify()
 
+    # -- control events with a delay ------------------------------------------------------------------------
+    def delayed_pre_handler(self, c18_blk=None, c18_i=None, **kwargs):
+        """A delayed control event is being processed: from now on one occurrence is in flight."""
+        now = self.loop.time()
+        ctx = self.ctx
+        mdl = self.models[c18_blk]
+        d = self.cfgs[c18_blk]["delayed"][c18_i]
+        self.prune_timers(now)
+        if not mdl.loaded:
+            # the control events of a mode-based block are registered only while its mode runs
+            ctx.probe("delayed_not_loaded")
+            ctx.log("delayed_post", c18_blk, d["op"], d["ms"], "not loaded", t=now)
+            return
+        ov = mdl.delayed.overlaps(d["op"], d["ms"])
+        if ov:
+            ctx.probe("delayed_overlap")
+            if any(e["event"] != d["event"] for e in ov):
+                ctx.probe("delayed_two_events_same_delay")
+        must = not self.stopping.get(mdl.scope, False)       # R-delayed-stop
+        mdl.delayed.add(d["op"], now, d["ms"], self.sidx(), must, d["event"])
+        ctx.probe("delayed_posted")
+        if mdl.scope != "machine":
+            ctx.probe("delayed_mode_path")
+        ctx.log("delayed_post", c18_blk, d["op"], d["ms"], must, t=now)
+        self.recent.append(("post+%dms" % d["ms"], c18_blk, d["op"], round(now, 6)))
+
+    def delayed_post_handler(self, c18_blk=None, c18_i=None, **kwargs):
+        # nothing may have happened to the block yet
+        self.verify_all("delayed event %s posted" % self.cfgs[c18_blk]["delayed"][c18_i]["event"])
+
+    def wrap_delay_callback(self, callback):
+        tgt = getattr(callback, "__self__", None)
+        fn = getattr(callback, "__name__", "")
+        if tgt is None or not fn.startswith("event_"):
+            return callback
+        blk = None
+        for n in self.names:
+            if self.devs.get(n) is tgt:
+                blk = n
+        op = {"advance_random": "random"}.get(fn[6:], fn[6:])
+        if blk is None or op not in ("count", "enable", "disable", "reset", "restart", "random"):
+            return callback
+
+        def carried_out(**kwargs):
+            self.delayed_begin(blk, op)
+            callback(**kwargs)
+            self.end(blk, op, None)
+        return carried_out
+
+    def delayed_begin(self, blk, op):
+        now = self.loop.time()
+        ctx = self.ctx
+        mdl = self.models[blk]
+        e = mdl.delayed.take(op, now, self.landing)
+        ctx.log("delayed_fire", blk, op, None if e is None else e["ms"], t=now)
+        if e is None:
+            ctx.violation("delayed_event", "%s:%s carried out without a pending occurrence" % (mdl.kind, op),
+                          "%s: a delay carried out %s at %.6f, but no occurrence of a delayed %s event is due at this "
+                          "instant (in flight: %r); recent: %r"
+                          % (blk, op, now, op, [(x["op"], x["event"], round(x["d"], 6)) for x in mdl.delayed.pending],
+                             self.recent[-8:]))
+        else:
+            ctx.probe("delayed_fired")
+            if now - e["d"] > EPS:
+                ctx.probe("delayed_fired_late_after_stall")
+        self.begin(blk, op, None)
+        self.window["delayed"] = True
+
+    def on_mode_will_stop(self, mode):
+        """Mode.stop() has begun (posted synchronously at its start): R-delayed-stop."""
+        self.stopping[mode] = True
+        for name, kind, scope in BLOCKS:
+            if scope == mode and self.models[name].delayed.relax():
+                self.ctx.probe("delayed_relaxed_by_mode_stop")
+
     # -- mode life cycle (observed through C18Mode) ---------------------------------------------------
     def mode_hook(self, what, mode):
         now = self.loop.time()
@@ -553,11 +705,16 @@ class Harness:
                     self.ctx.probe("persist_restore")
                 self.upd_buf[name] = []
                 self.allowed[name] = []
+                self.stopping[mode.name] = False
+                mdl.delayed.drop_all()
                 mdl.load(saved, now, self.sidx())
             else:
                 if mdl.timer.running():
                     self.ctx.probe("mode_stop_with_timer")
                 self.verify_block(name, "before unload")
+                self.stopping[mode.name] = False
+                if mdl.delayed.drop_all():
+                    self.ctx.probe("delayed_dropped_by_mode_stop")
                 saved = mdl.unload()
                 if mdl.persist:
                     self.player_states[(name, pl)] = saved
@@ -665,6 +822,13 @@ class Harness:
                 self.ctx.violation("timeout", "%s:timeout missed" % mdl.kind,
                                    "%s: the timeout due at %.6f never fired (now %.6f, enabled=%r completed=%r); "
                                    "recent: %r" % (n, missed, now, mdl.enabled, mdl.completed, self.recent[-8:]))
+            for e in mdl.delayed.prune(now, self.landing):
+                self.ctx.violation("delayed_event", "%s:%s occurrence lost" % (mdl.kind, e["op"]),
+                                   "%s: event %s (delay %d ms) was processed at %.6f, so %s was due at %.6f - it was "
+                                   "never carried out (now %.6f); other occurrences in flight: %r; recent: %r"
+                                   % (n, e["event"], e["ms"], e["t"], e["op"], e["d"], now,
+                                      [(x["op"], x["event"], round(x["d"], 6)) for x in mdl.delayed.pending],
+                                      self.recent[-8:]))
 
     # -- one processed operation -------------------------------------------------------------------
     def begin(self, blk, op, arg):
@@ -675,6 +839,8 @@ class Harness:
         mdl = self.models[blk]
         if mdl.timer.match(now, self.landing):
             self.ctx.probe("op_at_timeout_instant")
+        if any(abs(self.landing(e["d"], e["idx"]) - now) <= EPS for e in mdl.delayed.pending):
+            self.ctx.probe("op_at_delayed_instant")
         if self.last_timeout_t[blk] is not None and abs(self.last_timeout_t[blk] - now) <= EPS:
             self.ctx.probe("timeout_then_op_same_instant")
         self.window = {"blk": blk, "op": op, "arg": arg, "events": [], "t": now}
@@ -923,6 +1089,11 @@ def execute(ctx, plan):
                 post(h.cfgs[blk]["controls"][op["i"]]["event"])
             elif kind == "random":
                 post("%s_random" % blk)
+            elif kind == "delayed":
+                dl = h.cfgs[blk]["delayed"]
+                post(dl[op["i"] % len(dl)]["event"])
+                if "also" in op:
+                    post(dl[op["also"] % len(dl)]["event"])
             elif via == "call":
                 ctx.probe("direct_call")
                 h.begin(blk, kind, None)
@@ -942,7 +1113,7 @@ def execute(ctx, plan):
             t = now + w[1]
         else:
             mdl = h.models[op["blk"]]
-            dls = list(mdl.timer.deadlines())
+            dls = list(mdl.timer.deadlines()) + mdl.delayed.deadlines()
             if mdl.kind == "counter" and mdl.window is not None:
                 dls.append(mdl.window[0])
             dls = sorted(d for d in dls if d >= now - EPS)
